@@ -174,7 +174,7 @@ def _value_uses(prog, names):
 
 
 _SCALAR = r"(usize|isize|u8|u16|u32|u64|u128|i8|i16|i32|i64|i128|f64|f32|bool|char|\(\))"
-_SCALAR_TY = re.compile(r"^(%s|std::option::Option<|std::result::Result<|\(|\)|>|,|\s)+$" % _SCALAR)
+_SCALAR_TY = re.compile(r"^(%s|std::option::Option<|std::result::Result<|std::ops::RangeInclusive<|std::ops::Range<|\(|\)|>|,|\s)+$" % _SCALAR)
 
 
 def _scalar_helper(b):
